@@ -161,6 +161,26 @@ func init() {
 			},
 			truth: func(c c02Case) []string { return nil }})
 	}
+	// a link that carries a functionary's (public) certificate and a signature value that does not verify:
+	// altered after signing, or never signed by him at all
+	for _, cn := range []string{"leaf1", "leaf-direct"} {
+		cn := cn
+		c02Register(c02Kind{name: "tampered-cert:" + cn,
+			file: func(b *c02Builder) hx.WMetaFile {
+				f := hx.WMetaFile{Wrapper: "legacy", Meta: hx.MMeta{Link: c02Link("tampered-cert-" + cn)}, Sigs: []hx.WSig{{Key: "pki:" + cn, WithCert: true}}}
+				f.Name = "pki:" + cn
+				f.Tamper = &hx.TreeMutation{}
+				return f
+			},
+			truth: func(c c02Case) []string { return nil }})
+		c02Register(c02Kind{name: "forged-cert:" + cn,
+			file: func(b *c02Builder) hx.WMetaFile {
+				f := hx.WMetaFile{Wrapper: "legacy", Meta: hx.MMeta{Link: c02Link("forged-cert-" + cn)}, Sigs: []hx.WSig{{Key: "pki:" + cn, WithCert: true, Forge: "other-content"}}}
+				f.Name = "pki:" + cn
+				return f
+			},
+			truth: func(c c02Case) []string { return nil }})
+	}
 	// an outsider signs with his own key and ships, behind his bare public key, the (public) certificate of a
 	// real functionary in the cert member: the signer is whoever made the signature, and he has no certificate
 	for _, cn := range []string{"leaf1", "leaf-direct"} {
